@@ -262,10 +262,17 @@ def concretise_constraints(formulas, lo=-40, hi=40):
       val = z3.RealVal(2 ** j) if j >= 0 else z3.RealVal("1/%d" % (2 ** -j))
       alts.append(z3.And(n == j, I.POW2(n) == val))
     cs.append(z3.Or(*alts))
-  # ties are "allowed either way": a genuine witness must not depend on how a tie is broken
+  from . import lib as L
   for t in apps_of(formulas, "rnd"):
     a = t.arg(0)
-    cs.append(z3.And(z3.ToReal(t) - a < z3.RealVal("1/2"), a - z3.ToReal(t) < z3.RealVal("1/2")))
+    d = z3.ToReal(t) - a
+    if L.PRECISE_TIES[0]:
+      # round-half-even on every application term (the library semantics of tf.round/np.round)
+      cs.append(z3.And(d <= z3.RealVal("1/2"), -d <= z3.RealVal("1/2"),
+                       z3.Implies(z3.Or(d == z3.RealVal("1/2"), -d == z3.RealVal("1/2")), t % 2 == 0)))
+    else:
+      # ties are "allowed either way": a genuine witness must not depend on how a tie is broken
+      cs.append(z3.And(d < z3.RealVal("1/2"), -d < z3.RealVal("1/2")))
   for t in apps_of(formulas, "ipow2"):
     n = t.arg(0)
     alts = [z3.And(n == j, I.IPOW2(n) == 2 ** j) for j in range(0, hi + 1)]
